@@ -90,7 +90,14 @@ def wrapper_rule(chk):
             asserts = [U(a.test) for a in ast.walk(new) if isinstance(a, ast.Assert)]
             for other in ("scale", "zeropoint"):
                 if other in params:
-                    ok = f"data.device == {other}.device" in asserts or f"{other}.device == data.device" in asserts
+                    # (one assert per tensor, a conjunction, or a comparison chain: what matters is that the equality is asserted)
+                    eqs = set()
+                    for a_ in [x_ for x_ in ast.walk(new) if isinstance(x_, ast.Assert)]:
+                        for c_ in ([a_.test] if not (isinstance(a_.test, ast.BoolOp) and isinstance(a_.test.op, ast.And)) else a_.test.values):
+                            if isinstance(c_, ast.Compare) and all(isinstance(o_, ast.Eq) for o_ in c_.ops):
+                                chain = [U(c_.left)] + [U(x_) for x_ in c_.comparators]
+                                eqs.update(frozenset((chain[i_], chain[j_])) for i_ in range(len(chain)) for j_ in range(i_ + 1, len(chain)))
+                    ok = frozenset(("data.device", f"{other}.device")) in eqs or (other == "zeropoint" and frozenset(("scale.device", "zeropoint.device")) in eqs and frozenset(("data.device", "scale.device")) in eqs)
                     chk.require("C06.R3", site, ok, f"{fn}: asserts data.device == {other}.device", fn, f"device assert {other}", f"payload and {other} on different devices: the wrapper reports one device while holding two")
     chk.floor("C06.R3", n, 5, "wrapper subclasses with __new__")
     # constructor fields: what the wrapper reports (qtype, axis, group size) and holds (scale, zero-point) is what the constructor was given
@@ -126,10 +133,126 @@ def _norm_src(t: str) -> str:
     return CanonStr(t.replace("t.qbits_tensor()", "t"))
 
 
+def _payload_classes(repo):
+    out = []
+    for name in ("PackedTensor", "AWQPackedTensor"):
+        try:
+            ci = repo.cls(name)
+        except AnalysisError:
+            ci = None
+        if ci is not None and ci.own("__torch_dispatch__") is not None:
+            out.append(ci)
+    return out
+
+
+def _served_ops(ci):
+    """the aten packets a payload class re-wraps: what its dispatch compares `op.overloadpacket` with (`is X` / `== X` / `in (X, Y)`), read from the
+    path conditions so that a local alias (`packet = op.overloadpacket`) is seen through"""
+    from ..core import atoms
+    disp = ci.own("__torch_dispatch__")
+    served = set()
+    for p in paths_of(disp):
+        for c, t, _ in p.conds:
+            for a, pol in atoms(c, t):
+                for sep in (".overloadpacket is ", ".overloadpacket == ", ".overloadpacket in "):
+                    if sep in a and " not " not in a.split(sep)[0][-5:]:
+                        rhs = a.split(sep, 1)[1]
+                        if sep.endswith(" in "):
+                            served.update(x_.strip() for x_ in rhs.strip("()[]{} ").split(",") if x_.strip())
+                        else:
+                            served.add(rhs.strip())
+    for n in ast.walk(disp):  # (and the plain syntactic form, for a dispatch whose paths are not enumerated)
+        if isinstance(n, ast.Compare) and len(n.ops) == 1 and U(n.left).endswith(".overloadpacket"):
+            c = n.comparators[0]
+            if isinstance(n.ops[0], (ast.Is, ast.Eq)):
+                served.add(U(c))
+            elif isinstance(n.ops[0], ast.In) and isinstance(c, (ast.Tuple, ast.List, ast.Set)):
+                served.update(U(e) for e in c.elts)
+    return served
+
+
 def moves_rule(chk, r2="C06.R2", r4="C06.R4"):
+    """The move handlers are judged by WHAT each inner tensor receives (keyword profiles, qv/kwprof.py) and by what the guards of a path IMPLY
+    about the requested dtype (propositional entailment over the leaf conditions), not by the spelling of either."""
+    from ..kwprof import entails, profiles
     repo = chk.repo
     hs = handlers(repo)
     found = 0
+    PRESERVE = (None, "torch.preserve_format", "torch.contiguous_format")  # neither asks a 0-dim / grouped tensor for a rank-4 layout
+
+    def helper_of(mi):
+        def res(name):
+            r = repo.resolve(mi, name)
+            return r[1] if r is not None and isinstance(r[1], ast.FunctionDef) and r[0].rel.startswith("optimum/") else None
+        return res
+
+    def profs(e, kwn, p_, mi, fn_=None):
+        named = [a.arg for a in (fn_.args.args + fn_.args.kwonlyargs)] if fn_ is not None else ()
+        return profiles(e, kwn, p_, helper_of(mi), named) if isinstance(e, ast.Call) else []
+
+    A, F, I = "dtype is None", "dtype.is_floating_point", "dtype.itemsize == 1"
+    # platform table: the 8-bit floating point dtypes of torch (a scale cannot be stored in any of them)
+    ALL_FLOAT8 = {"torch.float8_e4m3fn", "torch.float8_e5m2", "torch.float8_e4m3fnuz", "torch.float8_e5m2fnuz", "torch.float8_e8m0fnu"}
+
+    def dtype_set(expr, mi, depth=3):
+        """the dtypes a membership test names: a literal collection of torch dtypes, a module constant holding one, or the storage dtypes of the registered
+        qtypes (`tuple({qt.dtype for qt in qtypes.values() if qt.is_floating_point})`); None when not evaluated"""
+        from ..registries import qtype_table
+        if isinstance(expr, (ast.Tuple, ast.List, ast.Set)):
+            out = set()
+            for e_ in expr.elts:
+                t_ = U(e_)
+                if t_.startswith("torch."):
+                    out.add(str(t_))
+                elif t_.endswith(".dtype") and t_[:-6] in qtype_table(repo):
+                    out.add(qtype_table(repo)[t_[:-6]]["dtype"])
+                else:
+                    return None
+            return out
+        if isinstance(expr, ast.Name) and depth > 0:
+            r = repo.resolve(mi, expr.id)
+            if r is not None and isinstance(r[1], ast.expr):
+                return dtype_set(r[1], r[0], depth - 1)
+            return None
+        if isinstance(expr, ast.Call) and U(expr.func) in ("tuple", "list", "set", "frozenset") and len(expr.args) == 1:
+            return dtype_set(expr.args[0], mi, depth)
+        if isinstance(expr, (ast.SetComp, ast.ListComp, ast.GeneratorExp)) and len(expr.generators) == 1:
+            g = expr.generators[0]
+            if U(g.iter) in ("qtypes.values()",) and isinstance(g.target, ast.Name) and U(expr.elt) == f"{g.target.id}.dtype":
+                recs = list({id(v): v for v in qtype_table(repo).values()}.values())
+                for t_ in g.ifs:
+                    if U(t_) == f"{g.target.id}.is_floating_point":
+                        recs = [r_ for r_ in recs if r_["is_floating_point"]]
+                    elif U(t_) == f"not {g.target.id}.is_floating_point":
+                        recs = [r_ for r_ in recs if not r_["is_floating_point"]]
+                    else:
+                        return None
+                return {r_["dtype"] for r_ in recs}
+        return None
+
+    def membership_knowledge(conds, mi):
+        """For each leaf `dtype in X` whose X evaluates: (extra conditions that hold for every dtype, missing 8-bit float dtypes).  A test against a collection
+        that holds every 8-bit float dtype is true of each of them; one that misses some is refuted by the missing ones."""
+        from ..kwprof import _leaves
+        extra, missing, seen = [], set(), set()
+        leaves = []
+        for c_, _t in conds:
+            _leaves(c_, leaves)
+        for l_ in leaves:
+            if isinstance(l_, ast.Compare) and len(l_.ops) == 1 and isinstance(l_.ops[0], (ast.In, ast.NotIn)) and U(l_.left) == "dtype":
+                S = dtype_set(l_.comparators[0], mi)
+                key = U(l_.comparators[0])
+                if S is None or key in seen:
+                    continue
+                seen.add(key)
+                atom = f"dtype in {key}"
+                if ALL_FLOAT8 <= S:
+                    extra.append((ast.parse(f"(not (dtype.is_floating_point and dtype.itemsize == 1)) or ({atom})", mode="eval").body, True))
+                else:
+                    missing |= ALL_FLOAT8 - S
+                if S <= ALL_FLOAT8:
+                    extra.append((ast.parse(f"(not ({atom})) or (dtype.is_floating_point and dtype.itemsize == 1)", mode="eval").body, True))
+        return extra, missing
     for h in hs["qbytes"]:
         if set(h.ops) & {"aten._to_copy", "aten.to"}:
             found += 1
@@ -137,49 +260,60 @@ def moves_rule(chk, r2="C06.R2", r4="C06.R4"):
             site = f"{h.mi.rel}:{fn.lineno}"
             x = positional_params(fn)[1]
             kwn = fn.args.kwarg.arg if fn.args.kwarg else None
-            for p in paths_of(fn):
+            for p in paths_of(fn, inline_helpers="methods"):
                 if p.end[0] != "return":
                     continue
                 f = handrules.ctor_fields(repo, "QBytesTensor", p.end[1]) if handrules.is_ctor(p.end[1]) else None
-                pf = path_facts(p)
-                wide_only = any("dtype.itemsize" in k for k in pf)  # the guard also keeps 8-bit float dtypes away from the scale
-                chk.require(r4, f"{h.mi.rel}:{p.end[2]}", wide_only, f"QBytes {h.name}: an 8-bit float dtype never reaches the scale (guard on dtype.itemsize on the path: {wide_only})", h.name, "scale cast to an 8-bit float dtype",
-                            "q.to(torch.float8_e4m3fn) on a qint8 tensor (or model.to(torch.float8_e4m3fn) on a frozen model): a QBytesTensor whose scale is float8; dequantize() and every fallback raise `Promotion for Float8 Types is not supported`")
-                float_dtype = pf.get("dtype is None") is True or pf.get("dtype.is_floating_point") is True or any(
-                    v is False and "dtype is not None" in k and "dtype.is_floating_point" in k for k, v in pf.items()) or any(
-                    v is False and "dtype is not None" in k and "not dtype.is_floating_point" in k and " or " not in k for k, v in pf.items()) or any(
-                    v is True and "dtype is None" in k and " or dtype.is_floating_point" in k and " and " not in k for k, v in pf.items())
+                conds = [(c, t) for c, t, _ in p.conds]
+                psite = f"{h.mi.rel}:{p.end[2]}"
                 if f is None:
-                    # a move to a non-floating dtype cannot keep the tensor quantized (the scale would be cast to an integer): it converts the dequantized values
+                    # a move to a dtype the scale cannot take (integer, 8-bit float) cannot keep the tensor quantized: it converts the dequantized values
                     e_ = p.end[1]
-                    fallback = handrules.is_op_call(e_) and [U(a) for a in e_.args] == [f"{x}.dequantize()"] and {k.arg: U(k.value) for k in e_.keywords} == {"dtype": "dtype", None: kwn}
-                    if fallback and pf.get("dtype is None") is False and (pf.get("dtype.is_floating_point") is False or any("dtype.is_floating_point" in k and v is True and " or " in k for k, v in pf.items())):
-                        chk.ok(r4, f"{h.mi.rel}:{p.end[2]}", f"QBytes {h.name}: a move to a non-floating dtype converts the dequantized values (`{U(e_)[:60]}`)")
+                    prs = profs(e_, kwn, p, h.mi, fn) if handrules.is_op_call(e_) else []
+                    fallback = bool(prs) and all(pr.first == f"{x}.dequantize()" and pr.passes("dtype") == "dtype" and pr.forwards_rest() and not pr.override for pr in prs)
+                    given, _ = entails(conds, lambda v: not v[A], [A])
+                    if fallback and given:
+                        chk.ok(r4, psite, f"QBytes {h.name}: a move to a dtype the scale cannot take converts the dequantized values (`{U(e_)[:60]}`)")
                     else:
                         chk.unknown(r4, site, "QBytes _to_copy does not return a constructor call")
                     continue
-                d, s = f["data"], f["scale"]
-                dkw = {k.arg: U(k.value) for k in d.keywords} if isinstance(d, ast.Call) else {}
-                skw = {k.arg: U(k.value) for k in s.keywords} if isinstance(s, ast.Call) else {}
-                ok_d = handrules.is_op_call(d) and [U(a) for a in d.args] == [f"{x}._data"] and dkw.get("dtype") == f"{x}._data.dtype" and dkw.get(None) == kwn
-                # the scale takes the other arguments too, except the memory format (it describes the layout of the data; a 0-dim scale cannot be channels_last)
-                no_mf = (f"{{k: v for (k, v) in {kwn}.items() if k != 'memory_format'}}", f"{{k: v for k, v in {kwn}.items() if k != 'memory_format'}}")
-                ok_s = handrules.is_op_call(s) and [U(a) for a in s.args] == [f"{x}._scale"] and skw.get("dtype") == "dtype" and skw.get(None) in (kwn,) + no_mf
-                chk.require(r4, f"{h.mi.rel}:{p.end[2]}", skw.get(None) in no_mf or "memory_format" in skw and False, f"QBytes {h.name}: the memory format is not forwarded to the scale (`**{skw.get(None)}`)", h.name, "memory_format forwarded to the scale",
+                extra_k, missing_f8 = membership_knowledge(conds, h.mi)
+                wide, foreign_w = entails(conds + extra_k, lambda v: v[A] or not v[I], [A, F, I])
+                flt, foreign_f = entails(conds + extra_k, lambda v: v[A] or v[F], [A, F, I])
+                if missing_f8:
+                    # the guard names some 8-bit float dtypes only: the others reach the scale
+                    foreign_w = [a_ for a_ in foreign_w if not a_.startswith("dtype in ")]
+                for verdict, foreign, text, tag, wit in (
+                        (wide, foreign_w, "an 8-bit float dtype never reaches the scale", "scale cast to an 8-bit float dtype",
+                         "q.to(torch.float8_e4m3fn) on a qint8 tensor (or model.to(torch.float8_e4m3fn) on a frozen model): a QBytesTensor whose scale is float8; dequantize() and every fallback raise `Promotion for Float8 Types is not supported`"),
+                        (flt, foreign_f, "the requested dtype reaches the scale only when it is None or floating point", "scale cast to a non-floating dtype",
+                         "q.to(torch.int32): the scale 0.79 becomes 0, the result reports int32, dequantizes to int8 and is all zeros where the float program gives trunc(x)")):
+                    if verdict is True:
+                        chk.ok(r4, psite, f"QBytes {h.name}: {text} (implied by the guards of the path: {' & '.join(p.cond_texts())[:70]})")
+                    elif verdict is False and not [a_ for a_ in foreign if "dtype" in a_]:
+                        more = f"; the guard's collection misses {sorted(missing_f8)}" if missing_f8 and "8-bit" in tag else ""
+                        chk.bad(r4, psite, h.name, tag, f"NOT: QBytes {h.name}: {text} (path: {' & '.join(p.cond_texts())[:70] or 'unconditional'}){more}", wit)
+                    else:
+                        chk.unknown(r4, psite, f"QBytes {h.name}: whether {text} is not decided (conditions on the dtype this rule does not read: {foreign[:3]})")
+                d, s_ = f["data"], f["scale"]
+                dps, sps = profs(d, kwn, p, h.mi, fn), profs(s_, kwn, p, h.mi, fn)
+                ok_d = bool(dps) and handrules.is_op_call(d) and all(pr.first == f"{x}._data" and pr.passes("dtype") == f"{x}._data.dtype" and pr.forwards_rest() and not pr.override for pr in dps)
+                mf_ok = bool(sps) and all(pr.passes("memory_format") in PRESERVE for pr in sps)
+                ok_s = bool(sps) and all(pr.first == f"{x}._scale" and pr.passes("dtype") == "dtype" and pr.forwards_rest(but={"memory_format"}) and set(pr.override) <= {"memory_format"} for pr in sps)
+                chk.require(r4, psite, mf_ok, f"QBytes {h.name}: the memory format is not forwarded to the scale (the scale receives memory_format={[pr.passes('memory_format') for pr in sps]})", h.name, "memory_format forwarded to the scale",
                             "q.to(memory_format=torch.channels_last) on a rank-4 per-tensor quantized tensor: RuntimeError `required rank 4 tensor` from the 0-dim scale (the float program is valid)")
-                chk.require(r4, f"{h.mi.rel}:{p.end[2]}", float_dtype, f"QBytes {h.name}: the requested dtype reaches the scale only when it is None or floating point (path: {' & '.join(p.cond_texts())[:60]})", h.name, "scale cast to a non-floating dtype",
-                            "q.to(torch.int32): the scale 0.79 becomes 0, the result reports int32, dequantizes to int8 and is all zeros where the float program gives trunc(x)")
-                chk.require(r4, f"{h.mi.rel}:{p.end[2]}", ok_d, f"QBytes {h.name}: payload moved as `{U(d)[:70]}` keeping its own dtype, other arguments forwarded", h.name, "payload keeps dtype on move", "q.to(torch.float16): the codes are cast to float16 and no longer match the qtype")
-                chk.require(r4, f"{h.mi.rel}:{p.end[2]}", ok_s, f"QBytes {h.name}: scale moved as `{U(s)[:70]}` with the requested dtype, other arguments forwarded", h.name, "scale takes requested dtype", "q.to(dtype) / q.to(device): dtype or device of the scale not updated")
+                chk.require(r4, psite, ok_d, f"QBytes {h.name}: payload moved as `{U(d)[:70]}` keeping its own dtype, other arguments forwarded", h.name, "payload keeps dtype on move", "q.to(torch.float16): the codes are cast to float16 and re-read as codes")
+                chk.require(r4, psite, ok_s, f"QBytes {h.name}: scale moved as `{U(s_)[:70]}` with the requested dtype, other arguments forwarded", h.name, "scale takes requested dtype", "q.to(dtype) / q.to(device): dtype or device of the scale differs from the request")
     for h in hs["qbytes"]:
         if "aten.clone" in h.ops:
             x = positional_params(h.fn)[1]
-            for p in paths_of(h.fn):
+            for p in paths_of(h.fn, inline_helpers="methods"):
                 if p.end[0] == "return" and handrules.is_ctor(p.end[1]):
                     f = handrules.ctor_fields(repo, "QBytesTensor", p.end[1])
                     s_ = f["scale"] if f else None
-                    kws = [k.arg for k in s_.keywords] if isinstance(s_, ast.Call) else []
-                    chk.require(r4, f"{h.mi.rel}:{p.end[2]}", "memory_format" not in kws, f"QBytes {h.name}: the memory format is not forwarded to the clone of the scale (`{U(s_)[:50]}`)", h.name, "memory_format forwarded to the scale",
+                    sps = profs(s_, None, p, h.mi)
+                    ok = all(pr.passes("memory_format") in PRESERVE for pr in sps)
+                    chk.require(r4, f"{h.mi.rel}:{p.end[2]}", ok, f"QBytes {h.name}: the memory format is not forwarded to the clone of the scale (`{U(s_)[:50]}`)", h.name, "memory_format forwarded to the scale",
                                 "q.clone(memory_format=torch.channels_last) on a rank-4 per-tensor quantized tensor: RuntimeError from the 0-dim scale")
     for h in hs["qbits"]:
         fn = h.fn
@@ -188,7 +322,8 @@ def moves_rule(chk, r2="C06.R2", r4="C06.R4"):
             found += 1
             ps = paths_of(fn)
             refusals = [p for p in ps if p.end[0] == "raise"]
-            ok_ref = len(refusals) >= 1 and all("ValueError" in U(p.end[1]) and p.holds(f"dtype == {x}.dtype") is False and p.holds("dtype is None") is False for p in refusals)
+            SAME, NONE = f"dtype == {x}.dtype", "dtype is None"
+            ok_ref = len(refusals) >= 1 and all("ValueError" in U(p.end[1]) and entails([(c, t) for c, t, _ in p.conds], lambda v: not v[SAME] and not v[NONE], [SAME, NONE])[0] is True for p in refusals)
             chk.require(r4, f"{h.mi.rel}:{fn.lineno}", ok_ref, f"QBits {h.name}: a dtype change is refused with ValueError (and nothing else is)", h.name, "dtype refusal", "q4.to(torch.float16) on a float32 low-bit tensor")
             for p in ps:
                 if p.end[0] != "return":
@@ -204,23 +339,34 @@ def moves_rule(chk, r2="C06.R2", r4="C06.R4"):
                 want = {"qtype": f"{x}._qtype", "axis": f"{x}._axis", "group_size": f"{x}._group_size", "size": f"{x}.size()", "stride": f"{x}.stride()"}
                 okf = all(src.get(k) in (v, v.replace("._", ".")) for k, v in want.items())
                 chk.require(r2, site, okf, f"QBits {h.name}: qtype/axis/group_size/size/stride carried from the source: { {k: src.get(k) for k in want} }", h.name, "QBits fields carried", "any low-bit tensor moved between devices")
-                def kwof(c):
-                    return {k.arg: U(k.value) for k in c.keywords} if isinstance(c, ast.Call) else {}
                 kwn = fn.args.kwarg.arg if fn.args.kwarg else None
-                d, s, z = f["data"], f["scale"], f["zeropoint"]
-                # the other arguments are forwarded; the memory format describes the layout of the data, so the (grouped, 2-D) scale and zero-point get
-                # the arguments without it, and so does a payload that no longer has the shape of the tensor
-                no_mf = (f"{{k: v for (k, v) in {kwn}.items() if k != 'memory_format'}}", f"{{k: v for k, v in {kwn}.items() if k != 'memory_format'}}")
-                rest_d = kwof(d).get(None)
-                ok_rest_d = rest_d in (kwn,) + no_mf or (isinstance(rest_d, str) and rest_d.startswith(f"{kwn} if ") and any(rest_d.endswith(" else " + m_) for m_ in no_mf))
-                ok_d = handrules.is_op_call(d) and _norm_src(U(d.args[0])) == f"{x}._data" and "dtype" not in kwof(d) and kwof(d).get("device") == "device" and ok_rest_d
-                ok_z = handrules.is_op_call(z) and _norm_src(U(z.args[0])) == f"{x}._zeropoint" and "dtype" not in kwof(z) and kwof(z).get("device") == "device" and kwof(z).get(None) in (kwn,) + no_mf
-                ok_s = handrules.is_op_call(s) and _norm_src(U(s.args[0])) == f"{x}._scale" and kwof(s).get("dtype") == "dtype" and kwof(s).get("device") == "device" and kwof(s).get(None) in (kwn,) + no_mf
-                chk.require(r4, site, kwof(s).get(None) in no_mf and kwof(z).get(None) in no_mf, f"QBits {h.name}: the memory format is not forwarded to the scale / zero-point (`**{kwof(s).get(None)}`)", h.name, "memory_format forwarded to the scale",
+                d, s_, z = f["data"], f["scale"], f["zeropoint"]
+                dps, sps, zps = profs(d, kwn, p, h.mi, fn), profs(s_, kwn, p, h.mi, fn), profs(z, kwn, p, h.mi, fn)
+
+                def moved(prs, inner, dtype_ok):
+                    return bool(prs) and all(_norm_src(pr.first or "") == f"{x}.{inner}" and dtype_ok(_norm_src(pr.passes("dtype")) if pr.passes("dtype") is not None else None) and pr.passes("device") == "device"
+                                             and pr.forwards_rest(but={"memory_format"}) and set(pr.override) <= {"memory_format"} for pr in prs)
+                # the memory format describes the layout of the data, so the (grouped, 2-D) scale and zero-point must not receive the caller's
+                # (they get none, or preserve_format), and neither may a payload that no longer has the shape of the tensor
+                mf_ok = bool(sps) and bool(zps) and all(pr.passes("memory_format") in PRESERVE for pr in sps + zps)
+                ok_d = handrules.is_op_call(d) and moved(dps, "_data", lambda t_: t_ in (None, f"{x}._data.dtype"))
+                ok_z = handrules.is_op_call(z) and moved(zps, "_zeropoint", lambda t_: t_ in (None, f"{x}._zeropoint.dtype"))
+                # (the requested dtype, or the scale's own when none is requested: the refusal above leaves no other case)
+                ok_s = handrules.is_op_call(s_) and moved(sps, "_scale", lambda t_: t_ == "dtype" or (t_ == f"{x}._scale.dtype" and p.holds("dtype is None") is True))
+                chk.require(r4, site, mf_ok, f"QBits {h.name}: the memory format is not forwarded to the scale / zero-point (they receive {sorted({str(pr.passes('memory_format')) for pr in sps + zps})})", h.name, "memory_format forwarded to the scale",
                             "a group-wise qint4 Conv2d weight (rank 4) moved with .to(memory_format=torch.channels_last) - what nn.Module.to(memory_format=...) does to every 4-D parameter: RuntimeError `required rank 4 tensor` from the 2-D grouped scale")
-                chk.require(r4, site, ok_d and ok_z, f"QBits {h.name}: payload and zero-point moved with device only (no dtype)", h.name, "payload/zeropoint moved without dtype", "q4.to(device, dtype=q4.dtype): integer payload cast to a float dtype")
+                chk.require(r4, site, ok_d and ok_z, f"QBits {h.name}: payload and zero-point moved with device only (no dtype but their own)", h.name, "payload/zeropoint moved without dtype", "q4.to(device, dtype=q4.dtype): integer payload cast to a float dtype")
                 chk.require(r4, site, ok_s, f"QBits {h.name}: scale moved with dtype and device", h.name, "scale moved", "q4.to(device)")
-        if "aten.detach" in h.ops:
+        # the payload of a QBitsTensor is a tensor subclass of its own (PackedTensor, AWQPackedTensor) whose dispatch re-wraps the result of a few ops only
+        # and runs every other op on an UNPACKED temporary: a handler that applies its op to `t._data` relies on that op being one of the few
+        if any(isinstance(c_, ast.Call) and handrules.is_op_call(c_) and c_.args and _norm_src(U(c_.args[0])) == f"{x}._data" for c_ in ast.walk(fn)):
+            for pc in _payload_classes(repo):
+                served = _served_ops(pc)
+                missing = sorted(o for o in h.ops if "torch.ops." + o not in served)
+                chk.require(r2, f"{h.mi.rel}:{fn.lineno}", not missing, f"QBits {h.name} applies {sorted(h.ops)} to the payload, and {pc.name}.__torch_dispatch__ re-wraps the result of each of them (it serves {sorted(served)})", h.name,
+                            f"payload op not served by {pc.name}", f"{sorted(h.ops)[0].split('.')[-1]} of a low-bit tensor: the payload comes back as a plain tensor of unpacked codes inside a QBitsTensor that expects packed data "
+                            "(copy.deepcopy of a frozen int4 model: the copy's weight dequantizes to garbage or raises)")
+        if {"aten.detach", "aten.clone"} & set(h.ops):
             found += 1
             for p in paths_of(fn):
                 if p.end[0] != "return":
@@ -228,7 +374,7 @@ def moves_rule(chk, r2="C06.R2", r4="C06.R4"):
                 e = p.end[1]
                 site = f"{h.mi.rel}:{p.end[2]}"
                 keeps = isinstance(e, ast.Call) and U(e.func) in (f"{x}.__class__", f"type({x})")
-                chk.require(r4, site, keeps, f"QBits {h.name}: detach rebuilds with the operand's own class ({U(e.func) if isinstance(e, ast.Call) else '?'})", h.name, "detach keeps class", "detach (Parameter construction) of an optimised subclass")
+                chk.require(r4, site, keeps, f"QBits {h.name}: detach / clone rebuilds with the operand's own class ({U(e.func) if isinstance(e, ast.Call) else '?'})", h.name, "detach keeps class", "detach (Parameter construction) of an optimised subclass")
                 if keeps:
                     init = repo.method(repo.cls("QBitsTensor"), "__init__")[1]
                     f = bind_call(init, e, skip_first=1)
@@ -280,7 +426,11 @@ def qbits_geometry(chk, rule="C06.R10"):
         if not mi.rel.startswith("optimum/"):
             continue
         for fn in [x for x in ast.walk(mi.tree) if isinstance(x, ast.FunctionDef)]:
-            if not any(isinstance(c, ast.Call) and (U(c.func) in classes or U(c.func) in tuple(f"{k}.create" for k in classes)) for c in ast.walk(fn)):
+            def _dyn(c):
+                # `t.__class__(...)` / `type(t)(...)` in the modules of the sub-byte tensors: the class of a QBits operand
+                f_ = c.func
+                return "/qbits/" in mi.rel and len(c.args) >= 8 and ((isinstance(f_, ast.Attribute) and f_.attr == "__class__") or (isinstance(f_, ast.Call) and U(f_.func) == "type" and len(f_.args) == 1))
+            if not any(isinstance(c, ast.Call) and (U(c.func) in classes or U(c.func) in tuple(f"{k}.create" for k in classes) or _dyn(c)) for c in ast.walk(fn)):
                 continue
             seen = set()
             try:
@@ -297,6 +447,8 @@ def qbits_geometry(chk, rule="C06.R10"):
                         if name in classes:
                             init = classes[name].own("__init__") or qb.own("__init__")
                             target, skip = init, 1
+                        elif _dyn(c):
+                            target, skip = qb.own("__init__"), 1
                         elif name.endswith(".create") and name[:-7] in classes and create is not None:
                             target, skip = create, 0
                         if target is None:
